@@ -182,3 +182,20 @@ Theorem mk_inquiry_normalises r a s c :
   (truthy r = true -> i_resource (mk_inquiry r a s c) = r) /\ (truthy a = true -> i_action (mk_inquiry r a s c) = a) /\
   (truthy s = true -> i_subject (mk_inquiry r a s c) = s) /\ (truthy c = true -> i_context (mk_inquiry r a s c) = c).
 Proof. unfold mk_inquiry, or_default. cbn. repeat split; intros ->; reflexivity. Qed.
+
+(* ---------- the converse fails on dictionary keys jsonpickle reserves ---------- *)
+Definition k_py_id : pstr := [112; 121; 47; 105; 100]%N.       (* py/id *)
+Definition q_reserved (n : Z) : inquiry :=
+  mk_inquiry (VStr [114%N]) (VStr [120%N]) (VDict [(k_py_id, VInt n); ([122%N], VInt 2)]) VNone.
+
+Theorem reserved_key_collision :
+  exists a b, inq_eq a b = true /\ inq_hash a = inq_hash b /\ ~ inq_content_eq a b.
+Proof.
+  exists (q_reserved 1), (q_reserved 2). split; [vm_compute; reflexivity|]. split; [vm_compute; reflexivity|].
+  intros [_ [_ [H _]]]. vm_compute in H. discriminate H.
+Qed.
+
+(* entries under reserved keys never reach the canonical text *)
+Lemma print_drops_reserved k x kvs : reserved_key k = true ->
+  print (VDict ((k, x) :: kvs)) = print (VDict kvs).
+Proof. intros H. cbn [print]. rewrite H. reflexivity. Qed.
